@@ -14,7 +14,7 @@ func init() {
 	register(&Property{
 		ID:      "C06",
 		Run:     runC06,
-		Explain: "For the four family DecryptMessage functions, crypto.DecryptMessage/DecryptEncPart, the three VerifyIntegrity functions and the 42 etype wrapper methods: every return with a nil error is dominated by the accepting edge of the etype's VerifyIntegrity and returns bytes derived from the DecryptData result of the same call, error returns carry no plaintext; VerifyIntegrity's result is a whole-slice equality (hmac.Equal / bytes.Equal / subtle) between the unsliced integrity hash and the MAC bytes of the message; key, usage and message each flow into the integrity computation; every wrapper forwards its parameters in the callee's roles; the usage octets Ke/Ki/Kc are pairwise distinct and the RC4 aliases are exactly {3→8, 9→8, 23→13}. Decides the all-paths 'integrity before plaintext' shape, not HMAC bit sensitivity.",
+		Explain: "For the four family DecryptMessage functions, crypto.DecryptMessage/DecryptEncPart, the three VerifyIntegrity functions and the 42 etype wrapper methods: every return with a nil error is dominated by the accepting edge of the etype's VerifyIntegrity and returns bytes derived from the DecryptData result of the same call, error returns carry no plaintext; VerifyIntegrity's result is a whole-slice equality (hmac.Equal / bytes.Equal / subtle) between the unsliced integrity hash and the MAC bytes of the message; key, usage and message each flow into the integrity computation; every wrapper forwards its parameters in the callee's roles; the usage octets Ke/Ki/Kc are pairwise distinct and the RC4 aliases are exactly {3→8, 9→8, 23→13}. Decides the all-paths 'integrity before plaintext' shape, not HMAC bit sensitivity. Added: the crypto packages keep no package-level state (or only a memo table whose key carries every parameter itself): results do not depend on earlier calls.",
 		NotDecided: []string{
 			"that a flipped bit changes an HMAC (cryptographic assumption); CTS/CBC correctness",
 			"panics on truncated inputs (C04)",
@@ -23,7 +23,7 @@ func init() {
 	register(&Property{
 		ID:      "C07",
 		Run:     runC07,
-		Explain: "The GetChksumEtype switch table against the IANA checksum registry / RFC 4757 and its agreement with each etype's GetHashID; the construction of the keyed checksum (DeriveKey with usage‖0x99, HMAC with the etype's hash, truncation to GetHMACBitLength()/8; RC4: HMAC-MD5(HMAC-MD5(key,\"signaturekey\\0\"), MD5(msgtype‖data))) as a call-sequence pattern; every VerifyChecksum implementation returns a whole-slice equality between the whole presented checksum and the whole computed value from the same key, data and usage, and false on a compute error. Equality with the RFC values is not decided.",
+		Explain: "The GetChksumEtype switch table against the IANA checksum registry / RFC 4757 and its agreement with each etype's GetHashID; the construction of the keyed checksum (DeriveKey with usage‖0x99, HMAC with the etype's hash, truncation to GetHMACBitLength()/8; RC4: HMAC-MD5(HMAC-MD5(key,\"signaturekey\\0\"), MD5(msgtype‖data))) as a call-sequence pattern; every VerifyChecksum implementation returns a whole-slice equality between the whole presented checksum and the whole computed value from the same key, data and usage, and false on a compute error. Equality with the RFC values is not decided. Added: the crypto packages keep no package-level state (or only a memo table whose key carries every parameter itself): results do not depend on earlier calls.",
 		NotDecided: []string{
 			"checksum values equal to an independent implementation's (cryptographic/numerical)",
 		},
